@@ -249,7 +249,13 @@ impl<'a> Eng<'a> {
     // ---- the five pipelines ----
     /// `fault`: (relative event index, persistent)
     fn pcall(&mut self, kind: &str, id: usize, fault: Option<(u64, bool)>, rblock: bool) -> Obs {
+        self.pcall_x(kind, id, fault, rblock, false)
+    }
+    /// `finish_fail`: the `Session::finish` inside `rollback` fails (injected through the step hook)
+    fn pcall_x(&mut self, kind: &str, id: usize, fault: Option<(u64, bool)>, rblock: bool, finish_fail: bool) -> Obs {
         let base = iohook::begins();
+        let log_pos = iohook::log_len();
+        *FAIL_STEP.lock().unwrap() = if finish_fail { Some("session_finish") } else { None };
         let inj0 = iohook::failed_injected();
         if std::env::var("VH_PIPE_DEBUG").is_ok() {
             eprintln!("pcall {kind} {id} fault={fault:?} rblock={rblock} (ops line {})", self.out.ops.len());
@@ -334,6 +340,7 @@ impl<'a> Eng<'a> {
             post.seqn += 1;
         }
         iohook::set_mode(Mode::Observe);
+        *FAIL_STEP.lock().unwrap() = None;
         // let the tasks the call did not wait for (it returned early with the error) come to rest: `Sync::sync` returns from
         // `bitbox_sync.wait_pre_meta()?` without joining the beatree task, from `bitbox_sync.post_meta()?` without joining the
         // rollback prune task
@@ -341,6 +348,7 @@ impl<'a> Eng<'a> {
             quiesce();
         }
         let labels = iohook::labels_since(base);
+        let seq = iohook::seq_from(log_pos);
         let injected = iohook::failed_injected() - inj0;
         let failed_label = if injected > 0 { fault.and_then(|(k, _)| labels.get(k as usize).cloned()) } else { None };
         if let Some(f) = handed_back_fin {
@@ -365,6 +373,8 @@ impl<'a> Eng<'a> {
                     "marker"
                 } else if m.contains("rollback:") {
                     "refused"
+                } else if finish_fail {
+                    "finish"
                 } else if injected > 0 {
                     "io"
                 } else {
@@ -391,8 +401,16 @@ impl<'a> Eng<'a> {
         );
         // a panic on a POISONED handle is finding F20 (reported by the oracle below); the in-memory state of such a handle
         // is beyond the model, the line is not compared
-        let line = if res == "panic" && was_poisoned { "skip".to_string() } else { line };
-        self.out.line(format!("pcall {kind} {id} {fault_txt}{}", if rblock { " rblock=busy" } else { "" }), line);
+        let line = if res == "panic" && was_poisoned { "skip".to_string() } else { format!("{line} order=ok") };
+        self.out.line(
+            format!(
+                "pcall {kind} {id} {fault_txt}{}{} seq={}",
+                if rblock { " rblock=busy" } else { "" },
+                if finish_fail { " finish=fail" } else { "" },
+                if seq.is_empty() { "-".to_string() } else { seq.join(",") }
+            ),
+            line,
+        );
         self.out.count(&format!("calls_{kind}"));
         self.out.count(&format!("result_{res}_{why}"));
         // ---- oracles ----
@@ -420,7 +438,9 @@ impl<'a> Eng<'a> {
                 }
                 _ => {
                     if self.limbo.is_none() {
-                        if !poisoned {
+                        if finish_fail {
+                            // an injected READ failure: recorded by the caller as an observation
+                        } else if !poisoned {
                             self.check_unchanged(&format!("refused {kind} ({why})"));
                         } else if why != "poisoned" && !(kind == "rollback" && why == "refused") {
                             self.out.fail(format!("C14 a poisoned handle refused {kind} with `{why}`: {d}"));
@@ -594,6 +614,19 @@ fn nomt_lock_free(dir: &str) -> bool {
     }
 }
 
+/// the step whose report fails (hook H14: only `session_finish` propagates the error)
+static FAIL_STEP: std::sync::Mutex<Option<&'static str>> = std::sync::Mutex::new(None);
+
+fn install_step_handler() {
+    nomt::verif_hook::set_step_handler(Some(std::sync::Arc::new(|name: &'static str| {
+        iohook::record_step(name);
+        if *FAIL_STEP.lock().unwrap() == Some(name) {
+            return Err(std::io::Error::from_raw_os_error(libc::EIO));
+        }
+        Ok(())
+    })));
+}
+
 const KINDS: [&str; 5] = ["commit", "trycommit", "ocommit", "otrycommit", "rollback"];
 
 pub fn run(seed: u64, cases: usize, out: &mut Sink, args: &[String]) {
@@ -636,6 +669,7 @@ pub fn run(seed: u64, cases: usize, out: &mut Sink, args: &[String]) {
         let desc = format!("replay: vharness pipeline --seed {seed} --cases {cases} (case {case}, sweep {kind}, segsize {segsize}, cfg {})", cfg.describe());
         out.mark_case(format!("case {case} sweep={kind} segsize={segsize} fat={fat} fresh={fresh_sweep} cfg: {}", cfg.describe()));
         iohook::install(Mode::Observe, Loss::None, None);
+        install_step_handler();
         let mut e = Eng {
             out: &mut *out,
             rng: rng.fork(),
@@ -698,6 +732,7 @@ pub fn run(seed: u64, cases: usize, out: &mut Sink, args: &[String]) {
         e.drop_all();
         let snaps: Vec<String> = e.snaps.values().map(|s| s.path.clone()).collect();
         drop(e);
+        nomt::verif_hook::set_step_handler(None);
         let _ = iohook::uninstall();
         let _ = std::fs::remove_dir_all(&dir);
         for s in snaps {
@@ -942,6 +977,76 @@ fn sweep(e: &mut Eng<'_>, kind: &str, cap: usize) {
                 e.pcall("rollback", 1, None, false);
             }
             e.observe(&touched);
+        }
+    }
+    // ---- rollback only: the `Session::finish` inside `Nomt::rollback` fails (injected through the step hook H14; a read error in
+    // reality): `Err` without poison after `truncate(n)` has popped the in-memory log.  The call itself is compared with the model;
+    // what follows is recorded as an observation (a read failure is outside C14's quantifier): a commit, a reopen and rollback(1)
+    if kind == "rollback" {
+        e.restore("base");
+        let (id, _spare) = prepare(e, kind, &plan);
+        let before = e.or.clone();
+        let ll0 = e.loglen();
+        let o = e.pcall_x(kind, id, None, false, true);
+        e.out.count("finish_failure_probes");
+        e.observe(&touched);
+        if o.res == "err" && !o.poisoned && e.loglen() + plan.n == ll0 {
+            e.out.count("observation_finish_failure_truncated_log_without_poison");
+        }
+        // consequence on the real store (not compared with the model, not an oracle failure): commit, reopen, rollback(1)
+        let s = e.db.as_ref().unwrap().begin_session(SessionParams::default());
+        let k = e.universe[0];
+        if let Ok(fin) = s.finish(vec![(k, KeyReadWrite::Write(Some(vec![7u8; 9])))]) {
+            if fin.commit(e.db.as_ref().unwrap()).is_ok() {
+                let after_commit = {
+                    let mut m = before.cur.clone();
+                    m.insert(k, vec![7u8; 9]);
+                    m
+                };
+                e.drop_all();
+                // (opened directly: a failure here is an observation, not an oracle failure of this run)
+                let t0 = std::time::Instant::now();
+                let opened = loop {
+                    match Db::open(e.cfg.options(&e.dir)) {
+                        Ok(db) => break Ok(db),
+                        Err(err) => {
+                            let m = format!("{err:#}");
+                            if m.contains("lock") && t0.elapsed().as_millis() < 5000 {
+                                std::thread::sleep(std::time::Duration::from_millis(2));
+                                continue;
+                            }
+                            break Err(m);
+                        }
+                    }
+                };
+                match opened {
+                    Err(m) => {
+                        e.out.count("observation_finish_failure_then_commit_then_reopen_fails");
+                        if e.out.samples.len() < 6 {
+                            e.out.samples.push(format!("OBSERVATION rollback({}) with a failing finish, then a commit: the directory does not reopen: {m} :: {}", plan.n, e.desc));
+                        }
+                    }
+                    Ok(db) => {
+                        let ok_rb = db.rollback(1).is_ok();
+                        let r = hex(&db.root().into_inner());
+                        // a correct store would be back at the state before that commit
+                        if ok_rb && r != root_of(&before.cur) {
+                            e.out.count("observation_finish_failure_then_rollback_restores_wrong_state");
+                            if e.out.samples.len() < 6 {
+                                e.out.samples.push(format!(
+                                    "OBSERVATION rollback({}) with a failing finish, commit, reopen, rollback(1): root {r}, expected {} (state before the commit); root after the commit was {} :: {}",
+                                    plan.n, root_of(&before.cur), root_of(&after_commit), e.desc
+                                ));
+                            }
+                        } else if !ok_rb {
+                            e.out.count("observation_finish_failure_then_rollback_refused");
+                        } else {
+                            e.out.count("observation_finish_failure_then_rollback_fine");
+                        }
+                        drop(db);
+                    }
+                }
+            }
         }
     }
     e.restore("base");
